@@ -704,6 +704,23 @@ def run_check(check: Check, tier: str, seed: int, workers: int = N_WORKERS, evid
 
     # 2. seeded search
     total = run_seeds(check, tier, seeds, workers, bud.get("wall"))
+    # a run that hit its wall cap while the whole machine was busy is run once more, alone and with three times the cap,
+    # before it is called a hang: a loaded machine must not turn into an alarm of any kind (its result is judged as usual)
+    slow = [he for he in total["harness_errors"] if he.get("seed") is not None and "wall cap" in str(he["error"])][:8]
+    if slow:
+        total["harness_errors"] = [he for he in total["harness_errors"] if he not in slow]
+        for he in slow:
+            res = run_isolated(_one_run, check, tier, he["seed"], bud.get("run_timeout", 120) * 3)
+            if isinstance(res, dict) and "__isolated_error__" in res:
+                total["harness_errors"].append({"seed": he["seed"], "error": res["__isolated_error__"]})
+                continue
+            scenario, out = res
+            total["probes"]["slow_run_repeated_alone"] = total["probes"].get("slow_run_repeated_alone", 0) + 1
+            if scenario is None or out["harness_error"]:
+                total["harness_errors"].append({"seed": he["seed"], "error": out["harness_error"], "scenario": scenario})
+            elif out["violation"]:
+                total["violations"].append({"seed": he["seed"], "violation": out["violation"],
+                                            "scenario": out.get("violation_scenario") or scenario})
     harness_errors += total["harness_errors"]
     if total["broken_pool"]:
         harness_errors.append({"seed": None, "error": "a worker process died (BrokenProcessPool)"})
